@@ -11,7 +11,7 @@ use neurons::tensor::Tensor;
 
 pub fn meta(_ctx: &Ctx) -> Meta {
     Meta {
-        rule: "data-set sizes M in {0 (predict_batch only),1,2,3,63,64,65,127,128,129,130,200} (and 256, 257, 300, 1025 for a thin slice) (below, at, above the internal chunk size 64, not multiples of it) x heads {soft-max(3), linear(1), linear(3), sigmoid(2); soft-max(1) for a slice} x bodies {dense, conv+dense, conv+pool+dense, dense with a multiplicative skip connection, dense with a loop connection} x 7 objectives x tolerances {1e-6,0.1,0.5,10}; inputs pairwise distinct; targets placed clearly inside / outside the tolerance per component, arg-max unique; plus soft-max heads whose last two units are copies (tied maxima): the accuracy must be the mean of the single-sample verdicts, each 0 or 1, and lie between the certain and the possible agreements (the statement does not fix which of several maxima counts). Oracles: predict_batch(xs)[i] bit-equal predict(xs[i]) in input order, length M; predict = last activation of forward; validate loss = mean of objective.loss(predict(x),t); accuracy by the three documented rules; validate and predict_batch repeated inside pools of 1 and 2 workers. A state is one (M, head, body, objective, tolerance) configuration; transitions = predictions made; non-trivial = M >= 2".into(),
+        rule: "data-set sizes M in {0 (predict_batch only),1,2,3,63,64,65,127,128,129,130,200} (and 256, 257, 300, 1025 for a thin slice) (below, at, above the internal chunk size 64, not multiples of it) x heads {soft-max(3), linear(1), linear(3), sigmoid(2); soft-max(1) for a slice} x bodies {dense, conv+dense, conv+pool+dense, dense with a multiplicative skip connection, dense with a loop connection, dense with a loop and skip connections out of the looped range} x 7 objectives x tolerances {1e-6,0.1,0.5,10}; inputs pairwise distinct; targets placed clearly inside / outside the tolerance per component, arg-max unique; plus soft-max heads whose last two units are copies (tied maxima): the accuracy must be the mean of the single-sample verdicts, each 0 or 1, and lie between the certain and the possible agreements (the statement does not fix which of several maxima counts). Oracles: predict_batch(xs)[i] bit-equal predict(xs[i]) in input order, length M; predict = last activation of forward; validate loss = mean of objective.loss(predict(x),t); accuracy by the three documented rules; validate and predict_batch repeated inside pools of 1 and 2 workers. A state is one (M, head, body, objective, tolerance) configuration; transitions = predictions made; non-trivial = M >= 2".into(),
         bound: "M <= 200; complete product".into(),
         exhaustive: true,
         assumptions: vec!["the mean is compared with tolerance (M+2)*eps*mean|term| (any summation order)".into()],
@@ -42,6 +42,16 @@ fn net_for(head: &str, body: &str) -> Net {
             );
             n.connects = vec![(0, 1)];
             n.skipacc = Acc::Mul;
+            n
+        }
+        "loopskip" => {
+            // a loop over layers 0..2 and a skip connection from INSIDE the looped range to the layer behind it
+            let d = || L::Dense { n: 4, act: Act::Tanh, bias: true, drop: None };
+            let mut n = Net::new(Dims::Flat(4), vec![d(), d(), d(), d(), head_layer]);
+            n.loopbacks = vec![(2, 0, 2, false)];
+            n.loopacc = Acc::Mean;
+            n.connects = vec![(2, 3), (1, 4)];
+            n.skipacc = Acc::Add;
             n
         }
         "loop" => {
@@ -321,7 +331,7 @@ pub fn cases(thorough: bool) -> Vec<Kv> {
     }
     for m in sizes {
         for head in ["softmax3", "linear1", "linear3", "sigmoid2"] {
-            for body in ["dense", "conv", "convpool", "skip", "loop"] {
+            for body in ["dense", "conv", "convpool", "skip", "loop", "loopskip"] {
                 for o in OBJ7 {
                     for tol in TOLS {
                         out.push(Kv::new().put("m", m).put("head", head).put("body", body).put("obj", o.name()).put("tol", tol));
